@@ -133,3 +133,33 @@ Proof.
   - apply Hgen; [reflexivity | intros _].
     rewrite <- (app_nil_r (match mi_seq m with FVal n => [(45, itoa n)] | _ => [] end)). apply ref45_of_ref_seq. reflexivity.
 Qed.
+
+Lemma rs_incr m s : RS m s -> RS m (incr_tgt s).
+Proof. intros H. exact H. Qed.
+Lemma rs_log m s c : RS m s -> RS m (log_cb s c).
+Proof. intros H. exact H. Qed.
+Lemma rs_logout m s : RS m s -> RS m (initiate_logout_in_reply_to s None).
+Proof. intros H. unfold initiate_logout_in_reply_to, send_logout_in_reply_to. apply rs_send; [exact H | reflexivity | reflexivity]. Qed.
+
+Lemma rs_process_reject : forall m s r s1 next,
+  process_reject s m r = (s1, next) -> RS m s -> okwire m (s_wire s1) /\ is_connected next = true.
+Proof.
+  intros m s r s1 next E H. destruct r as [recv exp|recv exp| | |reason tag bus]; cbn [process_reject] in E.
+  - (* too high *)
+    assert (Hx : forall x nx, (x = s \/ x = send s T_RESENDREQ (snd (x, nx) |> fun _ => []) ) -> True) by auto. clear Hx.
+    destruct (unwrap_pending (s_st s)) eqn:Eu;
+      try (unfold do_target_too_high, send_resend_request in E; cbv zeta in E;
+           match type of E with context [if ?c then _ else _] => destruct c end;
+           inversion E; subst; split; [apply rs_send; [exact H | reflexivity | reflexivity] | reflexivity]).
+    inversion E; subst. split; [exact (proj2 H) | reflexivity].
+  - unfold do_target_too_low in E.
+    repeat match type of E with context [match ?x with _ => _ end] => destruct x
+                           | context [if ?x then _ else _] => destruct x end;
+      inversion E; subst; (split; [|reflexivity]);
+      first [ exact (proj2 H) | apply rs_do_reject; exact H | apply rs_logout; exact H
+            | apply rs_incr, rs_do_reject; exact H | apply rs_logout, rs_do_reject; exact H ].
+  - inversion E; subst. split; [apply rs_logout; exact H | reflexivity].
+  - inversion E; subst. split; [apply rs_incr, rs_do_reject; exact H | reflexivity].
+  - destruct ((reason =? 9) || (reason =? 10)); inversion E; subst; (split; [|reflexivity]);
+      [apply rs_logout, rs_do_reject; exact H | apply rs_incr, rs_do_reject; exact H].
+Qed.
